@@ -10,7 +10,8 @@
 (* (ValueError incl. NixSyntaxError); never an internal error.              *)
 (* case == [id, err, one, rebuild : [res, same_bytes, mro], test : [out,    *)
 (*          status], set / rm : [res, mro], value : [res, mro, out_has],    *)
-(*          cli_set : [stdout_empty, status]]                                *)
+(*          cli_set : [stdout_empty, status], edits : Seq([kind, npath, res, *)
+(*          mro]), cli_edits : Seq([argv, stdout_empty, status])]            *)
 (***************************************************************************)
 EXTENDS Naturals, Sequences, TLC, Json, IOUtils
 
@@ -28,6 +29,11 @@ C07(c) ==
     (IF c.err /\ ~Refusal(c.set) THEN {"C07_NeverEdited_set"} ELSE {}) \cup
     (IF c.err /\ ~Refusal(c.rm) THEN {"C07_NeverEdited_rm"} ELSE {}) \cup
     (IF c.err /\ ~(c.cli_set.stdout_empty /\ c.cli_set.status # 0) THEN {"C07_CliSilent"} ELSE {}) \cup
+    \* ... whatever the path of the edit looks like (nested, quoted, scope-prefixed), and for the CLI as well
+    (IF c.err THEN {"C07_NeverEdited_path:" \o c.edits[i].kind \o " " \o c.edits[i].npath :
+                        i \in {j \in 1..Len(c.edits) : ~Refusal(c.edits[j])}} ELSE {}) \cup
+    (IF c.err THEN {"C07_CliSilent:" \o c.cli_edits[i].argv :
+                        i \in {j \in 1..Len(c.cli_edits) : ~(c.cli_edits[j].stdout_empty /\ c.cli_edits[j].status # 0)}} ELSE {}) \cup
     (IF ~c.one /\ ~(c.value.res # "ok" /\ InMro(c.value, "ValueError")) THEN {"C07_ValueWellFormed"} ELSE {})
 C20(c) ==
     (IF ~Documented(c.rebuild) THEN {"C20_DocumentedErrors:" \o c.rebuild.res} ELSE {})
